@@ -524,8 +524,8 @@ def xyz2llh(x, y, z, ellipsoid=grs80):
         nu = ellipsoid.semimaj/(sqrt(1 - ellipsoid.ecc1sq * (sin(lat))**2))
         itercheck = lat - atan((z + nu * ellipsoid.ecc1sq * sin(lat))/p)
         lat = atan((z + nu * ellipsoid.ecc1sq * sin(lat))/p)
-    nu = ellipsoid.semimaj/(sqrt(1 - ellipsoid.ecc1sq * (sin(lat))**2))
-    ellht = p/(cos(lat)) - nu
+    ellht = (p * cos(lat) + z * sin(lat)
+             - ellipsoid.semimaj * sqrt(1 - ellipsoid.ecc1sq * (sin(lat))**2))
     # Convert Latitude and Longitude to Degrees
     lat = degrees(lat)
     long = degrees(long)
